@@ -81,8 +81,21 @@ func (g *Gen) call(fr *frame, st *State, site ssa.Instruction, cc *ssa.CallCommo
 			}
 		}
 		for i, cl := range fr.fc.AtCall[shortName(key)] {
-			env := &Env{g: g, st: st, old: fr.old, vars: map[string]*Value{}, fr: fr, pkgPath: fr.fn.Pkg.Pkg.Path(), inBody: true, bound: avars}
-			g.addOblig(st, "assert", fmt.Sprintf("at.%s.%s", shortName(key), clauseName(cl, i)), env.evalBool(cl.E), cl.Src)
+			nerr := 0
+			env := &Env{g: g, st: st, old: fr.old, vars: map[string]*Value{}, fr: fr, pkgPath: fr.fn.Pkg.Pkg.Path(), inBody: true, bound: avars, quietErrs: &nerr}
+			t := env.evalBool(cl.E)
+			ck := shortName(key) + "." + clauseName(cl, i)
+			if g.atSeen == nil {
+				g.atSeen, g.atSkipped = map[string]int{}, map[string]int{}
+			}
+			if nerr > 0 {
+				// the clause names a local that does not exist on this path (another branch's variable): it does not
+				// apply to this call site. A clause that applies to no site at all is reported as an error.
+				g.atSkipped[ck]++
+				continue
+			}
+			g.atSeen[ck]++
+			g.addOblig(st, "assert", fmt.Sprintf("at.%s.%s", shortName(key), clauseName(cl, i)), t, cl.Src)
 		}
 	}
 	fc := g.W.C.Funcs[key]
